@@ -15,8 +15,8 @@ def run(tier: str) -> int:
     chk.encode("tel2puml/utils.py", "get_weighted_cover")
     chk.encode("tel2puml/logic_detection.py", "process_missing_and_gates (on hand-built OR trees)")
     chk.encode("tel2puml/events.py", "EventSet, get_reduced_event_set")
-    chk.bounds = {"cover": "every non-empty family of non-empty subsets of a universe of 3 events (127 families; thorough: 4 events, the 9949 "
-                           "families with at most 6 observed sets): soundness (partition of the universe, members observed, every observed set a union of members); "
+    chk.bounds = {"cover": "every non-empty family of non-empty subsets of a universe of 3 events (127 families; thorough: 4 events, the 4943 "
+                           "families with at most 5 observed sets): soundness (partition of the universe, members observed, every observed set a union of members); "
                            "completeness where exactness is demanded: families that are exactly the outcomes of an OR over AND-groups",
                   "gates": "OR over 2 or 3 plain events (optionally with an extra XOR child): process_missing_and_gates keeps every leaf "
                            "and the resulting tree admits every observed set"}
@@ -32,10 +32,12 @@ def run(tier: str) -> int:
              core.Cond("gates OR(A,B,C,XOR(X1,X2))", HARNESS, "check", {"k": 3, "kind": "gates", "extra": 1}, tmo),
              core.Cond("twin", HARNESS, "twin", {"k": 2}, tmo, expect_violation=True)]
     if tier == "thorough":
-        for fx in itertools.product((0, 1), repeat=5):
-            conds.append(core.Cond(f"cover |U|=4 shard={fx}", HARNESS, "check", {"k": 4, "fix": list(fx), "max_sets": 6}, tmo))
-        for fx in itertools.product((0, 1), repeat=4):
-            conds.append(core.Cond(f"gates OR(A,B,C,D) shard={fx}", HARNESS, "check", {"k": 4, "kind": "gates", "fix": list(fx), "max_sets": 6}, tmo))
+        for fx in itertools.product((0, 1), repeat=7):
+            if sum(fx) <= 5:
+                conds.append(core.Cond(f"cover |U|=4 shard={fx}", HARNESS, "check", {"k": 4, "fix": list(fx), "max_sets": 5}, tmo))
+        for fx in itertools.product((0, 1), repeat=6):
+            if sum(fx) <= 5:
+                conds.append(core.Cond(f"gates OR(A,B,C,D) shard={fx}", HARNESS, "check", {"k": 4, "kind": "gates", "fix": list(fx), "max_sets": 5}, tmo))
     return simple.run_conditions(chk, HARNESS, conds)
 
 
